@@ -54,6 +54,10 @@ def valid_tree(t, flat, top=True):
     return True
 
 
+def has_lazy(t):
+    return t[0] != 'leaf' and (t[0] == 'lazy' or any(has_lazy(c) for c in t[1]))
+
+
 def compose(c, t, objs):
     if t[0] == 'leaf':
         return objs[t[1]]
@@ -131,6 +135,14 @@ def run_case(seed, max_layers=5):
             continue
         full = observe(b, p, NAMES, hashes=True)
         o = slim(full, attrs=False)
+        # attribute access (a meta field is a value, any other field a function) is compared among the bracketings WITHOUT a
+        # LazyChain (a LazyChain does not forward the properties of its members, see DESIGN 6)
+        if not has_lazy(t):
+            at = canon(full.get('attrs'))
+            if 'attrs0' not in rec:
+                rec['attrs0'] = at
+            elif at != rec['attrs0'] and 'dir_err' not in full:
+                rec['problems'].append({'kind': 'bracketing', 'tree': t, 'msg': f'attribute access differs from the flat Chain: {at[:150]} vs {rec["attrs0"][:150]}'})
         built.append((t, p, canon(slim(full))))
         rec['variants'].append({'tree': t})
         rec.setdefault('trees', []).append(tree_desc(t, flat))
@@ -224,6 +236,9 @@ def run_shard(args):
         stats['inverse_sharing'] += 1
         for p in run_inverse_sharing(seed * 31337 + i):
             problems.append({'stack': p.get('layer'), **p})
+    for i in range(max(2, n // 5)):
+        for p in run_meta_redefined(seed * 613 + i):
+            problems.append({'stack': p.get('source'), **p})
     stats['error_class'] = {}
     for i in range(max(3, n // 4)):
         kind, pr = run_error_class(seed * 271 + i)
@@ -410,3 +425,39 @@ def run_error_class(seed):
                                                                           f'{outcome["Chain(a, b, c)"][:80]!r} for the same sequence of layers'})
             break
     return kind, problems
+
+
+def run_meta_redefined(seed):
+    """C09: a property (@meta field of a Transform) that a later layer drops and a still later layer defines again as an ordinary
+    field: whether `pipeline.name` is a value or a function must not depend on the bracketing (>>, Chain, nested Chain)"""
+    rng = random.Random(seed)
+    b = Builder()
+    src = {'k': 'source', 'cls': 'MS', 'ids': ['i1', 'i2'], 'fields': {'x': {'args': ['i']}}, 'params': {}, 'cargs': {}, 'defaults': {}}
+    meta = {'k': 'transform', 'cls': 'MM', 'fields': {'n': {'args': [], 'meta': True}}, 'params': {}, 'cargs': {}, 'defaults': {}, 'inherit': ['x']}
+    drop = {'k': 'transform', 'cls': 'MD', 'fields': {'y': {'args': ['x']}}, 'params': {}, 'cargs': {}, 'defaults': {}, 'inherit': ['x']}
+    again = {'k': 'transform', 'cls': 'MA', 'fields': {'n': {'args': ['x']}}, 'params': {}, 'cargs': {}, 'defaults': {},
+             'inherit': rng.choice([['x'], ['x', 'y'], True])}
+    flat = [src, meta, drop, again] if rng.random() < 0.7 else [src, meta, again]
+    objs = [b.layer(d) for d in flat]
+    n = len(flat)
+    L = lambda i: ('leaf', i)
+    trees = {'Chain(flat)': ('chain', [L(i) for i in range(n)]), '>>': ('rshift', [L(i) for i in range(n)]),
+             '(a >> b) >> rest': ('rshift', [('rshift', [L(0), L(1)])] + [L(i) for i in range(2, n)]),
+             'a >> (rest)': ('rshift', [L(0), ('chain', [L(i) for i in range(1, n)])]),
+             'Chain(Chain(a, b), Chain(rest))': ('chain', [('chain', [L(0), L(1)]), ('chain', [L(i) for i in range(2, n)])])}
+    if n == 4:
+        trees['a >> (b >> c) >> d'] = ('rshift', [L(0), ('rshift', [L(1), L(2)]), L(3)])
+    seen = {}
+    for name, t in trees.items():
+        try:
+            p = compose(b.c, t, objs)
+            a = getattr(p, 'n')
+            seen[name] = 'function' if callable(a) and hasattr(a, '__signature__') else 'value'
+        except Exception as e:
+            seen[name] = 'ERR ' + exc_name(e)
+    base = seen['Chain(flat)']
+    bad = {k: v for k, v in seen.items() if v != base}
+    if bad:
+        return [{'kind': 'bracketing', 'source': flat, 'msg': f'`pipeline.n` (a property dropped and defined again as a field) is a {base} for Chain(flat) '
+                                                               f'but {bad} for other bracketings of the same layers'}]
+    return []
